@@ -66,6 +66,8 @@ def norm_model(line):
         if term.startswith("panic:"):
             m = term[6:]
             term = "panic:" + norm_panic(bytes.fromhex("" if m == "-" else m).decode("utf-8", "replace"))
+        if term == "exit:0":          # exit(0) and falling off main are the same observable termination
+            term = "normal"
         return (text, term)
     return ("", line[:200])
 
